@@ -2547,9 +2547,22 @@ providedBy(PyObject* module, PyObject* ob)
     _zic_module_state* rec = _zic_state(module);
     specification_base_class = rec->specification_base_class;
 #endif
-    if (PyObject_TypeCheck(result, specification_base_class) ||
-        PyObject_HasAttrString(result, "extends"))
+    if (PyObject_TypeCheck(result, specification_base_class))
         return result;
+
+    /* Like the Python version, only a *missing* ``extends`` means "not a
+       specification"; anything else the probe raises propagates
+       (PyObject_HasAttrString would swallow it). */
+    cls = PyObject_GetAttrString(result, "extends");
+    if (cls != NULL) {
+        Py_DECREF(cls);
+        return result;
+    }
+    if (!PyErr_ExceptionMatches(PyExc_AttributeError)) {
+        Py_DECREF(result);
+        return NULL;
+    }
+    PyErr_Clear();
 
     /*
       The object's class doesn't understand descriptors.
